@@ -75,8 +75,6 @@ def classify(line: bytes, tls: bool, headers: bytes, waptop: str = "/wap") -> ty
         path = hp[1]
         if path == waptop or path.startswith(waptop + "/") or path.startswith(waptop + "?"):
             return "WAPProtocol"
-        if path.startswith(waptop):
-            return None  # '/wapiti': prefix without a boundary, see D12 -- abstain here
         w = wap_by_headers(headers)
         if w is None:
             return None
@@ -93,7 +91,9 @@ def classify(line: bytes, tls: bool, headers: bytes, waptop: str = "/wap") -> ty
         except UnicodeEncodeError:
             ascii_ok = False
         parts = s.strip().split(" ")
-        if ascii_ok and len(parts) == 3 and all(parts) and parts[2].isdigit():
+        if ascii_ok and len(parts) == 3 and all(parts) and parts[2].isdigit() and parts[1].startswith("/") \
+                and not parts[0].startswith("/"):
+            # host SP path-absolute SP content-length (Spartan specification)
             # str.isdigit() is wider than [0-9] only for non-ASCII, excluded above
             return "SpartanProtocol"
     fields = [f.strip() for f in s.split("\t")]
@@ -319,7 +319,7 @@ def main() -> int:
              "and disabled. distinct = (winner, TLS, #tab fields, 3-blank-parts?) tuples + first bytes",
         assumptions=["TLS-ness is presented to the shape tests as an ssl.SSLSocket instance (mock TLS) in the law "
                      "part and as a genuine handshake in the first-byte sweep",
-                     "the reference classifier abstains on: waptop prefix without a path boundary, duplicate "
+                     "the reference classifier abstains on: duplicate "
                      "headers, 'Accept:' value without a separator before the WML type"])
 
 
